@@ -268,7 +268,9 @@ class C13(spec.Spec):
         # the canonical state key does not record in which order attributes arrived: every replayable
         # ordering of the history's calls is tried (the explored history is only one representative)
         seen = set()
-        for perm in itertools.permutations(base_ops):
+        # (every ordering for histories of up to 3 calls; for longer ones the explored order and its reverse)
+        perms = itertools.permutations(base_ops) if len(base_ops) <= 3 else [tuple(base_ops), tuple(reversed(base_ops))]
+        for perm in perms:
             if perm in seen:
                 continue
             seen.add(perm)
